@@ -5,6 +5,7 @@ import (
 	"fmt"
 	"os"
 	"path/filepath"
+	"reflect"
 	"sort"
 	"strings"
 
@@ -20,6 +21,12 @@ func init() {
 	registry["C04"] = func(r *hx.R, tier, scratch string) (*hx.Suite, error) { return genInjectSuite(r, tier, scratch, "C04") }
 	registry["C14"] = func(r *hx.R, tier, scratch string) (*hx.Suite, error) { return genInjectSuite(r, tier, scratch, "C14") }
 }
+
+// DEFECT-PENDING(oci-result-aliases-cache): see notes/audit/DEFECT-C14-oci-result-aliases-cache.md.  The OCI spec an
+// injection returns shares slices and pointers (hook args / env, mount options, device file mode / uid / gid, hook timeout)
+// with the cached Specs: a caller editing ITS OCI spec in place changes the cache.  While false, the harness does not write
+// into the OCI spec it got back before it compares the cache image.
+const defectPendingOCIAliasesCache = false
 
 // richHosts: host device nodes that rich Spec edits may refer to (device nodes completed from the host at injection).
 var richHosts []hostNode
@@ -61,6 +68,94 @@ func remakeHostNodes(r *hx.R, nodes []hostNode) []hostNode {
 		out = append(out, hostNode{n.Path, t, ma, mi})
 	}
 	return out
+}
+
+// remakeHostNodesVar re-creates what stands at the given host paths: mostly a device node with another type / major /
+// minor, now and then nothing at all, a regular file, or a symbolic link to a device (lstat sees a link): the last three
+// are "no device node" to the lstat oracle.  Returns the nodes that exist now.
+func remakeHostNodesVar(r *hx.R, paths []string) []hostNode {
+	var out []hostNode
+	for _, p := range paths {
+		_ = os.Remove(p)
+		x := r.Float64()
+		switch {
+		case x < 0.10:
+			continue
+		case x < 0.16:
+			_ = os.WriteFile(p, []byte("x"), 0o644)
+			continue
+		case x < 0.22:
+			_ = os.Symlink("/dev/null", p)
+			continue
+		}
+		t := hx.Pick(r, []string{"c", "b", "p"})
+		mode := map[string]uint32{"c": unix.S_IFCHR, "b": unix.S_IFBLK, "p": unix.S_IFIFO}[t]
+		ma, mi := pickDevNum(r)
+		if t == "p" {
+			ma, mi = 0, 0
+		}
+		if err := unix.Mknod(p, mode|0o600, int(unix.Mkdev(uint32(ma), uint32(mi)))); err != nil {
+			continue
+		}
+		if !rdevIs(p, ma, mi) {
+			_ = os.Remove(p)
+			continue
+		}
+		out = append(out, hostNode{p, t, ma, mi})
+	}
+	return out
+}
+
+// scribbleOCI writes into everything an OCI spec holds by reference (the caller doing what it likes with ITS spec).
+func scribbleOCI(o *oci.Spec) {
+	if o == nil {
+		return
+	}
+	str := func(l []string) {
+		for i := range l {
+			l[i] = "SCRIBBLE=" + l[i]
+		}
+	}
+	hooks := func(l []oci.Hook) {
+		for i := range l {
+			str(l[i].Args)
+			str(l[i].Env)
+			if l[i].Timeout != nil {
+				*l[i].Timeout += 1000
+			}
+		}
+	}
+	if o.Process != nil {
+		str(o.Process.Env)
+	}
+	for i := range o.Mounts {
+		str(o.Mounts[i].Options)
+	}
+	if o.Hooks != nil {
+		hooks(o.Hooks.Prestart)
+		hooks(o.Hooks.CreateRuntime)
+		hooks(o.Hooks.CreateContainer)
+		hooks(o.Hooks.StartContainer)
+		hooks(o.Hooks.Poststart)
+		hooks(o.Hooks.Poststop)
+	}
+	if o.Linux != nil {
+		for i := range o.Linux.Devices {
+			d := &o.Linux.Devices[i]
+			if d.FileMode != nil {
+				*d.FileMode = 0
+			}
+			if d.UID != nil {
+				*d.UID += 4000
+			}
+			if d.GID != nil {
+				*d.GID += 4000
+			}
+		}
+		if o.Linux.IntelRdt != nil {
+			o.Linux.IntelRdt.ClosID = "SCRIBBLE"
+		}
+	}
 }
 
 // cacheImage: everything the query API shows of the cached Specs and devices, as one string.
@@ -116,6 +211,7 @@ type injStep struct {
 	after   *oci.Spec
 	same    bool
 	wb      bool
+	argsOK  bool // the slice of names handed to InjectDevices is as it was
 }
 
 func (s *injStep) term() string {
@@ -124,12 +220,12 @@ func (s *injStep) term() string {
 		o = hx.Some(ociTerm(s.init))
 		o2 = hx.Some(ociTerm(s.after))
 	}
-	return hx.C("Inj", hostTerm(s.hosts), o, hx.LS(s.names), hx.LS(s.unres), hx.Nat(s.outcome), o2, hx.B(s.same), hx.B(s.wb))
+	return hx.C("Inj", hostTerm(s.hosts), o, hx.LS(s.names), hx.LS(s.unres), hx.Nat(s.outcome), o2, hx.B(s.same), hx.B(s.wb), hx.B(s.argsOK))
 }
 
 func (s *injStep) desc() interface{} {
 	m := map[string]interface{}{"request": s.names, "unresolved_returned": s.unres, "outcome": []string{"ok", "error", "PANIC"}[s.outcome],
-		"cache_unchanged": s.same, "writeback_ok": s.wb, "host_nodes": s.hosts}
+		"cache_unchanged": s.same, "writeback_ok": s.wb, "request_slice_unchanged": s.argsOK, "host_nodes": s.hosts}
 	if s.init != nil {
 		m["initial"] = ociJSON(s.init)
 		m["result"] = ociJSON(s.after)
@@ -138,6 +234,36 @@ func (s *injStep) desc() interface{} {
 	}
 	return m
 }
+
+type cornerRequest struct {
+	names  []string
+	nilOCI bool
+}
+
+var cornerAt int
+
+// cornerRequests: request shapes which a random mixture seldom hits: the only miss is the empty string, misses before and
+// after a resolvable name, repetitions, the empty request, a nil OCI spec with every kind of request, eight, nine and ten
+// misses, blank-padded names.
+func cornerRequests(r1, r2 string) []cornerRequest {
+	miss := func(n int) []string {
+		var l []string
+		for i := 0; i < n; i++ {
+			l = append(l, fmt.Sprintf("vendor9.com/gpu=m%d", i))
+		}
+		return l
+	}
+	return []cornerRequest{
+		{names: []string{""}}, {names: []string{r1, ""}}, {names: []string{"", r1}}, {names: []string{" "}}, {names: []string{r1, r1}},
+		{names: []string{}}, {names: nil}, {names: []string{r1, "nope", r2}, nilOCI: true}, {names: []string{r1}, nilOCI: true}, {names: nil, nilOCI: true},
+		{names: []string{"", ""}, nilOCI: true}, {names: miss(8)}, {names: miss(9)}, {names: append(miss(9), r1)}, {names: append([]string{r1}, miss(10)...)},
+		{names: []string{r1, "nope"}}, {names: []string{"nope", r1}}, {names: []string{r1, "nope", r2, "nope"}}, {names: []string{r1 + " "}}, {names: []string{" " + r1, r1}},
+		{names: []string{"nope", "nope"}}, {names: []string{r1, r2, r1}}, {names: []string{"\n"}}, {names: []string{r1, "\t"}},
+	}
+}
+
+// injectVia: the default cache is asked through the package-level function
+var injectViaPackage bool
 
 func doInject(c *cdi.Cache, hosts []hostNode, init *oci.Spec, names []string, image0 string, wbDir string, checkWB bool) injStep {
 	st := injStep{hosts: hosts, names: names}
@@ -148,21 +274,48 @@ func doInject(c *cdi.Cache, hosts []hostNode, init *oci.Spec, names []string, im
 	}
 	var unres []string
 	var err error
-	p, _ := hx.Guard(func() { unres, err = c.InjectDevices(work, names...) })
+	// the implementation gets its own slice: what it does to it is observed, and cannot reach the request as printed
+	passed := append(make([]string, 0, len(names)+2), names...)
+	p, _ := hx.Guard(func() {
+		if injectViaPackage {
+			unres, err = cdi.InjectDevices(work, passed...)
+		} else {
+			unres, err = c.InjectDevices(work, passed...)
+		}
+	})
 	switch {
 	case p:
 		st.outcome = 2
 	case err != nil:
 		st.outcome = 1
 	}
-	st.unres = unres
+	st.unres = append([]string(nil), unres...)
+	st.argsOK = len(passed) == len(names) && (len(names) == 0 || reflect.DeepEqual(passed, names))
 	st.after = work
+	if defectPendingOCIAliasesCache && checkWB && work != nil {
+		st.after = deepCopyOCI(work)
+		scribbleOCI(work)
+	}
 	if checkWB {
 		// C14: applying a cached device's or Spec's edits directly must leave the cache alone as well
 		for _, n := range c.ListDevices() {
 			if d := c.GetDevice(n); d != nil {
+				// into an empty OCI spec and into the populated one of this step (non-zero uid / gid, existing sections)
+				target := func() *oci.Spec {
+					if init != nil {
+						return deepCopyOCI(init)
+					}
+					return &oci.Spec{}
+				}
 				_, _ = hx.Guard(func() { _ = d.ApplyEdits(&oci.Spec{}) })
 				_, _ = hx.Guard(func() { _ = d.GetSpec().ApplyEdits(&oci.Spec{}) })
+				t1, t2 := target(), target()
+				_, _ = hx.Guard(func() { _ = d.ApplyEdits(t1) })
+				_, _ = hx.Guard(func() { _ = d.GetSpec().ApplyEdits(t2) })
+				if defectPendingOCIAliasesCache {
+					scribbleOCI(t1)
+					scribbleOCI(t2)
+				}
 			}
 		}
 	}
@@ -178,27 +331,69 @@ func genInjectSuite(r *hx.R, tier, scratch, prop string) (*hx.Suite, error) {
 	s := &hx.Suite{Property: prop, Imports: []string{"Base", "SpecModel", "Oci", "Apply", "Cache", "InjectSpec", "Judge02"}, CaseType: "case02", Judge: "judge02", Shard: 40}
 	switch prop {
 	case "C02":
-		s.Rule = "caches of 1-4 Spec directories with 0-4 entries each (spec-level and device edits of every kind: env, hooks, mounts, device nodes incl. nodes completed from real host nodes), shadowing and conflicts; random initial OCI specs; requests = ordered selections of distinct resolvable devices interleaving files; non-trivial = at least two devices requested, of which two resolve to the same file or two to different files"
+		s.Rule = "caches of 1-4 Spec directories with 0-4 entries each (spec-level and device edits of every kind: env, hooks, mounts, device nodes incl. nodes completed from real host nodes), shadowing and conflicts; random initial OCI specs; requests = ordered selections of distinct resolvable devices interleaving files, handed over as a copy whose integrity is observed; caches of their own (manual / automatic refresh) and the default cache through the package-level functions; non-trivial = at least two devices requested, of which two resolve to the same file or two to different files"
 	case "C04":
-		s.Rule = "same caches; requests mixing resolvable names with unknown, malformed, shadowed and conflict-removed names, with repetitions, on non-empty OCI specs and on a nil OCI spec; non-trivial = the request contains a resolvable and an unresolvable name"
+		s.Rule = "same caches; requests mixing resolvable names with unknown, malformed, shadowed and conflict-removed names, with repetitions, near misses of resolvable names (case, blanks, one character more or less), on non-empty OCI specs and on a nil OCI spec, plus 24 corner requests taken in turn (the only miss is the empty string, 8 / 9 / 10 misses, nil OCI spec with each kind of request, the empty request ...); non-trivial = the request contains a resolvable and an unresolvable name"
 	default:
-		s.Rule = "same caches; histories of 2-5 injections of one request into equal OCI specs with the host device nodes re-created (other type/major/minor) between some of them; the cached Specs and devices are compared (JSON image through the query API) with those before the first injection and every cached Spec is written back through the library and read back; non-trivial = some injected device node takes attributes from a host node"
+		s.Rule = "same caches; histories of 2-5 injections of one request into equal OCI specs with the host device nodes re-created (other type/major/minor, or gone, or a regular file, or a symbolic link) between some of them, the Spec files changed behind the cache's back or re-read unchanged; the cached Specs and devices are compared (JSON image through the query API) with those before the first injection and every cached Spec is written back through the library and read back; non-trivial = some injected device node takes attributes from a host node"
 	}
 	devDir := filepath.Join(scratch, "hostdev")
 	hosts, mknodOK := makeHostNodes(r, devDir)
 	richHosts = hosts
 	defer func() { richHosts = nil }()
-	n := 160
+	n := 240
+	if prop == "C14" {
+		n = 180 // histories: several injections, images and write-backs per case
+	}
 	if tier == "thorough" {
 		n = 1600
 	}
 	pool := allPoolNames()
-	junk := []string{"", "a", "/x=y", "v/c", "vendor1.com/gpu", "vendor1.com/gpu=", "=dev1", "vendor1.com/gpu=none", "vendor9.com/gpu=dev1", "a/b=c"}
+	junk := []string{"", "a", "/x=y", "v/c", "vendor1.com/gpu", "vendor1.com/gpu=", "=dev1", "vendor1.com/gpu=none", "vendor9.com/gpu=dev1", "a/b=c",
+		// spellings close to a name that may resolve: another case, something appended, a doubled separator, the bare device
+		// name, two names in one, a pattern
+		"VENDOR1.COM/GPU=DEV1", "Vendor1.com/gpu=dev1", "vendor1.com/gpu=Dev1", "vendor1.com/gpu=dev1=x", "vendor1.com//gpu=dev1", "vendor1.com/gpu==dev1",
+		"vendor1.com/gpu=dev1\x00", "dev1", "vendor1.com/gpu=dev1,vendor1.com/gpu=dev2", "vendor1.com/gpu=*", "vendor1.com/gpu=dev1/", "./vendor1.com/gpu=dev1",
+		"vendor1.com/gpu=dev", "vendor1.com/gpu=dev11", "endor1.com/gpu=dev1"}
+	var hostPaths []string
+	for _, h := range hosts {
+		if strings.Contains(h.Path, "/hostdev/") {
+			hostPaths = append(hostPaths, h.Path)
+		}
+	}
+	fsopts := fsOpts{rich: true}
+	creators := []string{"NewCache(WithSpecDirs(dirs), WithAutoRefresh(false)), Cache.InjectDevices", "NewCache(..., WithAutoRefresh(true)), Cache.InjectDevices",
+		"the default cache: cdi.Configure(WithSpecDirs(dirs), WithAutoRefresh(false)), cdi.InjectDevices"}
 	for i := 0; i < n; i++ {
 		root := filepath.Join(scratch, fmt.Sprintf("c%d", i))
-		fs := genFS(r, root, true, false, false)
+		fs := genFS(r, root, fsopts)
 		fs.materialise()
-		cache, _ := cdi.NewCache(cdi.WithSpecDirs(fs.dirList()...), cdi.WithAutoRefresh(false))
+		// entry points: a cache of its own in manual mode, one in automatic mode (nothing changes on disk while it is used:
+		// not in C14, whose histories change the files behind the cache's back), the default cache through the package
+		how := 0
+		switch {
+		case i%5 == 3 && prop != "C14":
+			how = 1
+		case i%5 == 4:
+			how = 2
+		}
+		var cache *cdi.Cache
+		switch how {
+		case 1:
+			cache, _ = cdi.NewCache(cdi.WithAutoRefresh(true), cdi.WithSpecDirs(fs.dirList()...))
+		case 2:
+			_ = cdi.Configure(cdi.WithSpecDirs(fs.dirList()...), cdi.WithAutoRefresh(false))
+			cache = cdi.GetDefaultCache()
+		default:
+			cache, _ = cdi.NewCache(cdi.WithSpecDirs(fs.dirList()...), cdi.WithAutoRefresh(false))
+		}
+		injectViaPackage = how == 2
+		cleanup := func() {
+			if how == 1 {
+				_ = cache.Configure(cdi.WithAutoRefresh(false))
+			}
+			injectViaPackage = false
+		}
 		resolvable := cache.ListDevices()
 		image0 := cacheImage(cache)
 		fsTerm, fsDesc := fs.term(), fs.desc() // the directories as the cache has read them
@@ -208,6 +403,7 @@ func genInjectSuite(r *hx.R, tier, scratch, prop string) (*hx.Suite, error) {
 		switch prop {
 		case "C02":
 			if len(resolvable) == 0 {
+				cleanup()
 				continue
 			}
 			perm := r.Perm(len(resolvable))
@@ -263,8 +459,22 @@ func genInjectSuite(r *hx.R, tier, scratch, prop string) (*hx.Suite, error) {
 			}
 			steps = append(steps, doInject(cache, hosts, init, names, image0, "", false))
 			nontrivial = hasRes && hasUnres
+			if len(resolvable) > 0 {
+				// requests of particular shapes, in turn, on every cache which resolves something
+				corners := cornerRequests(hx.Pick(r, resolvable), hx.Pick(r, resolvable))
+				for j := 0; j < 2; j++ {
+					c := corners[cornerAt%len(corners)]
+					cornerAt++
+					var o *oci.Spec
+					if !c.nilOCI {
+						o = randOCI(r, hosts, false)
+					}
+					steps = append(steps, doInject(cache, hosts, o, c.names, image0, "", false))
+				}
+			}
 		default: // C14
 			if len(resolvable) == 0 {
+				cleanup()
 				continue
 			}
 			perm := r.Perm(len(resolvable))
@@ -280,20 +490,24 @@ func genInjectSuite(r *hx.R, tier, scratch, prop string) (*hx.Suite, error) {
 			varyRequest := r.Chance(0.5)
 			diskChange := r.Chance(0.5)
 			for j := 0; j < nsteps; j++ {
-				if j > 0 && r.Chance(0.6) {
-					cur = remakeHostNodes(r, cur)
+				if j > 0 && r.Chance(0.6) && mknodOK {
+					cur = remakeHostNodesVar(r, hostPaths)
 				}
 				if j == 1 && diskChange {
 					// the Spec files change on disk and nobody refreshes this manual-mode cache: it keeps answering from what it
 					// has read, also after a request that fails on a device it does not know
 					for k, n := 0, 1+r.Intn(3); k < n; k++ {
-						diskHistory = append(diskHistory, fs.mutate(r, true, false))
+						diskHistory = append(diskHistory, fs.mutate(r, fsopts))
 					}
 					miss := append(append([]string{}, names...), hx.Pick(r, append(append([]string{}, pool...), "vendor9.com/gpu=dev1", "vendor1.com/gpu=none")))
 					if r.Chance(0.5) {
 						miss = miss[len(miss)-1:]
 					}
 					steps = append(steps, doInject(cache, cur, init, miss, image0, "", false))
+				}
+				if !diskChange && j > 0 && r.Chance(0.2) {
+					// the same files read again: other objects, the same content
+					_ = cache.Refresh()
 				}
 				req := names
 				if varyRequest && j > 0 {
@@ -305,6 +519,9 @@ func genInjectSuite(r *hx.R, tier, scratch, prop string) (*hx.Suite, error) {
 					}
 				}
 				steps = append(steps, doInject(cache, cur, init, req, image0, wbDir, j == nsteps-1 || r.Chance(0.3)))
+			}
+			if len(cur) == 0 && mknodOK {
+				cur = remakeHostNodesVar(r, hostPaths)
 			}
 			hosts = cur
 			richHosts = cur
@@ -327,8 +544,9 @@ func genInjectSuite(r *hx.R, tier, scratch, prop string) (*hx.Suite, error) {
 			descs[j] = steps[j].desc()
 		}
 		sort.Strings(resolvable)
+		cleanup()
 		s.Add(hx.Case{Term: hx.C("Case02", fsTerm, hx.L(terms)),
-			Desc:       map[string]interface{}{"dirs": fsDesc, "resolvable": resolvable, "steps": descs, "changes_on_disk_after_the_first_step_without_refresh": diskHistory},
+			Desc:       map[string]interface{}{"dirs": fsDesc, "resolvable": resolvable, "steps": descs, "changes_on_disk_after_the_first_step_without_refresh": diskHistory, "cache": creators[how]},
 			Class:      prop + "-random",
 			Nontrivial: nontrivial})
 	}
